@@ -70,9 +70,10 @@ def findChild (name : String) : List GNode → Option GNode
   | [] => none
   | n :: ns => if n.name == name then some n else findChild name ns
 
-/-- one step of the loop body of `_get_griffe_node`; `none` inside `ok` = the early `return None` -/
-def griffeStep (node : GNode) (part : String) : Except PyErr (Option GNode) :=
-  if node.name == part then .ok (some node)
+/-- one step of the loop body of `_get_griffe_node`; `none` inside `ok` = the early `return None`;
+    `first` = this is the first part of the qualified name (only there the package's own name is skipped) -/
+def griffeStep (node : GNode) (part : String) (first : Bool := false) : Except PyErr (Option GNode) :=
+  if first && node.name == part then .ok (some node)
   else match findChild part node.modules with
     | some c => .ok (some c)
     | none => match findChild part node.classes with
@@ -92,7 +93,14 @@ def griffeWalk : GNode → List String → Except PyErr (Option GNode)
     | .ok (some n) => griffeWalk n ps
 
 /-- `_get_griffe_node(qname)` -/
-def getGriffeNode (root : GNode) (qname : String) : Except PyErr (Option GNode) := griffeWalk root (splitDot qname)
+def getGriffeNode (root : GNode) (qname : String) : Except PyErr (Option GNode) :=
+  match splitDot qname with
+  | [] => .ok (some root)
+  | p :: ps =>
+    match griffeStep root p true with
+    | .error e => .error e
+    | .ok none => .ok none
+    | .ok (some n) => griffeWalk n ps
 
 /-- the cache-less specification of "the docstring of `qname`" -/
 def lookupDoc (root : GNode) (qname : String) : Except PyErr (Option GDoc) :=
